@@ -1,4 +1,5 @@
 //@host src/io_loop/mod.rs
+//@quick (time-outs only matter when something hangs: also runs in the quick tier, labelled bounded)
 // C08 / C05 bounded stand-in, end to end through the public API (real I/O thread, in-memory broker).  Session states at the moment the
 // connection ends: 0..2 extra open channels, 0..2 consumers, a call in flight on another thread or not; ways it ends:
 //   client close, answered by CloseOk (with and without the broker hanging up right behind it);
